@@ -206,6 +206,8 @@ struct State {
   int64_t out_accepted = 0;
   // heap
   std::unordered_map<void *, size_t> live;
+  std::map<size_t, size_t> arena_free;      // private arena: free extents (offset -> length), address ordered
+  bool arena_used = false;
   std::unordered_set<void *> freed;     // blocks of this run that were freed and not handed out again: a second free() is reported, not passed to libc
   size_t live_bytes = 0;
   // env copies
@@ -995,6 +997,53 @@ static bool pool_put(void *p, size_t n) {
 }
 #endif
 
+// Private arena for the simulated program's heap (plain / ndebug / preempt variants; the sanitizer and valgrind variants keep the
+// real malloc, which those tools instrument).  Reasons: (1) isolation - a wild free() or a write after free() in a broken lbzip2
+// can then only damage lbzip2's own blocks, not the harness's heap (seeded change C07-3 took worker processes down with "corrupted
+// double-linked list", unreproducibly); (2) determinism - first-fit over an arena that is empty at the start of every run hands
+// out the same offsets whatever the process did before, so even the consequences of such undefined behaviour replay exactly.
+// All bookkeeping (live blocks, free extents) lives outside the arena.
+#if !defined(SIM_ASAN) && !defined(SIM_TSAN)
+#define SIM_ARENA 1
+static char *g_arena;
+static const size_t ARENA_SIZE = (size_t)12 << 30;     // virtual; pages are touched on demand
+static size_t g_arena_high;                             // high-water mark of the current process
+static inline bool in_arena(const void *p) { return g_arena && (const char *)p >= g_arena && (const char *)p < g_arena + ARENA_SIZE; }
+static bool arena_on() {
+  static int on = -1;
+  if (on < 0) {
+    on = RUNNING_ON_VALGRIND ? 0 : 1;
+    if (on) { g_arena = (char *)mmap(0, ARENA_SIZE, PROT_READ | PROT_WRITE, MAP_PRIVATE | MAP_ANONYMOUS | MAP_NORESERVE, -1, 0); if (g_arena == MAP_FAILED) { g_arena = nullptr; on = 0; } }
+  }
+  return on == 1;
+}
+static char *arena_alloc(State &s, size_t n) {
+  size_t need = (n + CANARY + 63) & ~(size_t)63;
+  if (s.arena_free.empty() && !s.arena_used) s.arena_free[0] = ARENA_SIZE;
+  for (auto it = s.arena_free.begin(); it != s.arena_free.end(); ++it) {
+    if (it->second < need) continue;
+    size_t off = it->first, len = it->second;
+    s.arena_free.erase(it);
+    if (len > need) s.arena_free[off + need] = len - need;
+    s.arena_used = true;
+    if (off + need > g_arena_high) g_arena_high = off + need;
+    return g_arena + off;
+  }
+  return nullptr;
+}
+static void arena_release(State &s, void *p, size_t n) {
+  size_t off = (size_t)((char *)p - g_arena), len = (n + CANARY + 63) & ~(size_t)63;
+  auto nx = s.arena_free.lower_bound(off);
+  if (nx != s.arena_free.end() && nx->first == off + len) { len += nx->second; nx = s.arena_free.erase(nx); }
+  if (nx != s.arena_free.begin()) { auto pv = std::prev(nx); if (pv->first + pv->second == off) { pv->second += len; return; } }
+  s.arena_free[off] = len;
+}
+static void arena_end_of_run() {     // keep the resident set bounded: give back what lies above 384 MiB
+  const size_t keep = (size_t)384 << 20;
+  if (g_arena && g_arena_high > keep) { madvise(g_arena + keep, g_arena_high - keep, MADV_DONTNEED); g_arena_high = keep; }
+}
+#endif
+
 void *simw_malloc(size_t n) { SHIM;
   State &s = *S;
 #ifdef SIM_ASAN
@@ -1008,7 +1057,11 @@ void *simw_malloc(size_t n) { SHIM;
     return pp;
   }
 #endif
+#ifdef SIM_ARENA
+  char *p = arena_on() ? arena_alloc(s, n) : (char *)malloc(n + CANARY);
+#else
   char *p = (char *)malloc(n + CANARY);
+#endif
   if (!p) return nullptr;
   memset(p, s.plan->junk, n);
   (void)VALGRIND_MAKE_MEM_UNDEFINED(p, n);     // junk for the native variants, "undefined" for memcheck
@@ -1026,6 +1079,14 @@ void simw_free(void *p) { SHIM;
   State &s = *S;
   auto it = s.live.find(p);
   if (it == s.live.end()) {
+#ifdef SIM_ARENA
+    if (in_arena(p)) {          // inside lbzip2's arena but not a live block: double free or wild pointer
+      if (s.res->monitor.empty()) s.res->monitor = s.freed.count(p) ? "heap: double free" : "heap: free() of a pointer that is not the start of a live block";
+      s.res->aborted = true;
+      if (s.res->abort_msg.empty()) s.res->abort_msg = "free(): invalid pointer / double free detected by the tracking allocator";
+      end_run(X_SIGNAL, SIGABRT);
+    }
+#endif
 #ifndef SIM_ASAN     // (the ASan builds pass it on: ASan reports the double free with both stacks)
     if (s.freed.count(p)) {     // glibc would abort ("double free or corruption") or corrupt its heap silently; here it is always reported
       if (s.res->monitor.empty()) s.res->monitor = "heap: double free";
@@ -1045,6 +1106,9 @@ void simw_free(void *p) { SHIM;
   if (pool_put(p, blk_n)) return;
 #endif
   (void)blk_n;
+#ifdef SIM_ARENA
+  if (in_arena(p)) { arena_release(s, p, blk_n); return; }
+#endif
   shim_suspend();
   free(p);      // TSan: the release of the block is an access of the freeing thread
   shim_resume();
@@ -1612,9 +1676,15 @@ Result run(const Plan &plan) {
 #ifdef SIM_ASAN
     if (pool_put(kv.first, kv.second)) continue;
 #endif
+#ifdef SIM_ARENA
+    if (in_arena(kv.first)) continue;     // the arena starts empty in the next run anyway
+#endif
     free(kv.first);
   }
   s.live.clear();
+#ifdef SIM_ARENA
+  arena_end_of_run();
+#endif
   for (char *c : s.envbuf) free(c);
 #ifdef SIM_TSAN
   for (int i = 0; i < s.nf; i++) if (s.F[i].ts) { __tsan_destroy_fiber(s.F[i].ts); s.F[i].ts = nullptr; }
